@@ -31,7 +31,7 @@ for d in sorted(glob.glob(os.path.join(ROOT, 'seeded', 'C*_*'))):
     try:
       ev = json.load(open(os.path.join(ROOT, 'evidence', prop + '.json')))
       cov = ev.get('coverage', {})
-      extra = {'oracle_failures': cov.get('oracle_failures'), 'correspondence_disagreements': cov.get('disagreements'),
+      extra = {'oracle_failures': cov.get('oracle_failures'), 'correspondence_disagreements': (cov.get('model_correspondence') or {}).get('cases_where_model_and_code_disagree', 0),
                'obligations': cov.get('obligations'), 'discharged': cov.get('discharged')}
     except Exception:
       extra = {}
